@@ -257,6 +257,38 @@ def check_raw_copies(prop: str, res: Result, repo: Repo, want=("method", "append
             res.fail(rule, finding(prop, rule, vi, vi.node, "the binding loop must create a missing timeframe manager with one CandleManager(...) call", construct="_validate_indicators: CandleManager(...)"))
 
 
+def lasting_effect_sites(repo: Repo, eff, fn):
+    """effect sites of fn that outlive a call.  A collecting parameter (`def f(self, acc=None): if acc is None: acc = set() ...
+    child.f(acc)`) is a fresh object per outside call: the parameter defaults to None and only the function itself (the recursion)
+    ever passes it, so writes through it are not kept anywhere"""
+    a_ = fn.node.args
+    none_default = {p_.arg for p_, d_ in zip(a_.args[len(a_.args) - len(a_.defaults):], a_.defaults) if isinstance(d_, ast.Constant) and d_.value is None}
+    passed_outside = set()
+    for g in repo.all_functions():
+        if g.node is fn.node:
+            continue
+        for c_ in calls_in(g.node):
+            if call_name(c_) == fn.name:
+                params_ = [x.arg for x in a_.args if x.arg not in ("self", "cls")]
+                passed_outside |= set(params_[: len(c_.args)]) | {k.arg for k in c_.keywords if k.arg}
+    # the parameter is re-bound to a fresh container when it is None, before anything is written through it
+    fresh_when_none = set()
+    for st in fn.node.body:
+        if isinstance(st, ast.If) and isinstance(st.test, ast.Compare) and len(st.test.ops) == 1 and isinstance(st.test.ops[0], ast.Is) and isinstance(st.test.left, ast.Name) and isinstance(st.test.comparators[0], ast.Constant) and st.test.comparators[0].value is None:
+            for b in st.body:
+                if isinstance(b, ast.Assign) and len(b.targets) == 1 and isinstance(b.targets[0], ast.Name) and b.targets[0].id == st.test.left.id and (isinstance(b.value, (ast.Set, ast.List, ast.Dict)) or isinstance(b.value, ast.Call) and call_name(b.value) in ("set", "list", "dict")):
+                    fresh_when_none.add(st.test.left.id)
+        elif isinstance(st, ast.Assign) and len(st.targets) == 1 and isinstance(st.targets[0], ast.Name) and isinstance(st.value, ast.IfExp):
+            t = st.value.test
+            nm = st.targets[0].id
+            if isinstance(t, ast.Compare) and len(t.ops) == 1 and isinstance(t.left, ast.Name) and t.left.id == nm and isinstance(t.comparators[0], ast.Constant) and t.comparators[0].value is None:
+                arm = st.value.body if isinstance(t.ops[0], ast.Is) else st.value.orelse
+                if isinstance(arm, (ast.Set, ast.List, ast.Dict)) or isinstance(arm, ast.Call) and call_name(arm) in ("set", "list", "dict"):
+                    fresh_when_none.add(nm)
+    benign = (none_default & fresh_when_none) - passed_outside
+    return [(root, node, w) for root, node, w in eff.effect_sites(fn) if root not in benign and not any(f"parameter '{b}'" in w for b in benign)]
+
+
 def check_purge_paths(prop: str, res: Result, repo: Repo):
     """R-PURGE: Indicator.purge hands its name set to the manager on every path (no early return that leaves entries behind) and the
     name collection keeps nothing between calls"""
@@ -295,8 +327,9 @@ def check_purge_paths(prop: str, res: Result, repo: Repo):
     eff = Effects(repo)
     if fn is not None and fn.name != "purge":
         e = eff.effect(fn)
-        if e:
-            for root, node, w in eff.effect_sites(fn)[:2]:
+        sites_ = lasting_effect_sites(repo, eff, fn)
+        if e and sites_:
+            for root, node, w in sites_[:2]:
                 res.fail(rule, finding(prop, rule, fn, node, f"the purge name set is kept between calls ({w}; e.g. a mutable default argument or a cache on the object): a later purge of another indicator also removes these names"))
         else:
             res.ok(rule, {"site": fn.where, "why": "name collection is stateless"})
